@@ -19,7 +19,14 @@ fn subset(rng: &mut Rng, xs: &[u32], style: u64) -> Vec<u32> {
     }
 }
 
-pub fn generate(rng: &mut Rng, kind: Kind) -> Generated { generate_opts(rng, kind, false) }
+pub fn generate(rng: &mut Rng, kind: Kind) -> Generated {
+    let mut g = generate_opts(rng, kind, false);
+    // 1/5 of the providers hand back the result of `filter_candidates` in reverse input order: the trait promises no order,
+    // and code that derives one filter result from another (or assumes input order) is wrong for them
+    // (not in the C17 differential: the C++ test provider filters in input order)
+    if std::env::var_os("VERIF_NO_ACTIVITY").is_none() && rng.chance(1, 5) { g.u.filter_rev = true; }
+    g
+}
 
 /// A ladder of diamonds: packages x0..xN with 2-3 versions each, every version of x(i) requires a (random) two of the
 /// versions of x(i+1), so every candidate is reachable over several parents (exponentially many root-to-leaf paths over
